@@ -306,9 +306,9 @@ namespace c09
     // two-element containers: at nesting depth 0 and 1 every ordered pair of element values when the element
     // alphabet has at most 99 values (n*n pairs); otherwise, and in deeper positions, each element value followed
     // by its successor in the element list (n pairs). No type then exceeds 10^4 (thorough: 6.3*10^4) values.
-    // (thorough tier: larger alphabets in nested positions and all pairs up to 250 element values.)
+    // (thorough tier: larger alphabets in nested positions and all pairs at depth 0..2 up to 250 element values.)
     extern int level; // 0 = quick, 1 = thorough; set by the sub-check body before anything is counted
-    inline bool all_pairs(int d, long n) { return d <= 1 && n <= (level ? 250 : 99); }
+    inline bool all_pairs(int d, long n) { return level ? (d <= 2 && n <= 250) : (d <= 1 && n <= 99); }
     inline long container_count(int d, long n) { return 1 + n + (all_pairs(d, n) ? n * n : n); }
     inline void pair_of(int d, long n, long j, long &a, long &b)
     {
@@ -506,6 +506,10 @@ namespace c09
             return r;
         }
     }
+
+    // the decoded object escapes: the compiler may not drop the loads that fill it (a dropped load is an
+    // over-read ASan never sees)
+    inline void keep(const void *p) { asm volatile("" : : "r"(p) : "memory"); }
 
     // ---------------------------------------------------------------- exactly-sized heap copy: [p, p+n) ends at the redzone
     struct Exact
